@@ -14,18 +14,19 @@ def clientVarOf (fs : Facts) (vd : VarDef) : VarDef :=
   { name := vd.name, dtype := vd.dtype, evented := vd.evented
     min := (typed fs vd.dtype vd.min).map pyStr
     max := (typed fs vd.dtype vd.max).map pyStr
-    allowed := if A.isEmpty then none else some ((A.map pyStr).filterMap textOf)
+    allowed := if A.isEmpty then none else
+      some ((A.map pyStr).filterMap (fun s => allowedText (famOf vd.dtype == some .str) (textOf s)))
     default := (typed fs vd.dtype vd.default).map pyStr }
 
-theorem filterMap_text_leaf (q : QName) (A : List Val) :
-    List.filterMap (fun x => match x with | Xml.node _ _ t _ => t)
+theorem filterMap_text_leaf (q : QName) (b : Bool) (A : List Val) :
+    List.filterMap (fun c => allowedText b (match c with | Xml.node _ _ t _ => t))
       (List.filter (fun c => decide ((match c with | Xml.node t _ _ _ => t) = q))
         (List.map (fun v => Xml.node q [] (textOf (pyStr v)) []) A))
-    = List.filterMap (textOf ∘ pyStr) A := by
+    = List.filterMap (fun v => allowedText b (textOf (pyStr v))) A := by
   induction A with
   | nil => rfl
   | cons v r ih =>
-    simp only [List.map_cons, List.filter_cons, decide_true, ↓reduceIte, List.filterMap_cons, Function.comp]
+    simp only [List.map_cons, List.filter_cons, decide_true, ↓reduceIte, List.filterMap_cons]
     rw [ih]
 
 /-- the factory's parse of the served `<stateVariable>` element -/
@@ -43,7 +44,7 @@ theorem parseVar_serializeVar (fs : Facts) (vd : VarDef)
   cases hA : A.isEmpty <;> cases mn <;> cases mx <;> cases df <;>
     simp [Xml.attr?, Xml.findtext, Xml.find, Xml.findall, Xml.kids, Xml.attrs, Xml.tag, Xml.text, leaf, sq, plain,
       textOf_getD, hstrip, hfam, hfam', hA, svcNs_ne_nil]
-  all_goals exact filterMap_text_leaf _ A
+  all_goals exact filterMap_text_leaf _ _ A
 
 /-! ### typed comparison -/
 
@@ -149,16 +150,18 @@ theorem mem_allowedVals {fs : Facts} {vd : VarDef} {v : Val} (h : v ∈ allowedV
     ∃ a ∈ vd.allowed.getD [], inp fs vd.dtype a = some v := by
   simpa [allowedVals, List.mem_filterMap] using h
 
-theorem filterMap_textOf_eq {l : List Str} (h : ∀ s ∈ l, s ≠ []) : l.filterMap textOf = l := by
+theorem allowedText_textOf {b : Bool} {s : Str} (h : s ≠ []) : allowedText b (textOf s) = some s := by
+  unfold textOf
+  cases s with
+  | nil => exact absurd rfl h
+  | cons _ _ => simp [allowedText]
+
+theorem filterMap_textOf_eq {b : Bool} {l : List Str} (h : ∀ s ∈ l, s ≠ []) :
+    l.filterMap (fun s => allowedText b (textOf s)) = l := by
   induction l with
   | nil => rfl
   | cons a r ih =>
-    have ha : textOf a = some a := by
-      unfold textOf
-      cases a with
-      | nil => exact absurd rfl (h [] List.mem_cons_self)
-      | cons _ _ => simp
-    simp only [List.filterMap_cons, ha]
+    simp only [List.filterMap_cons, allowedText_textOf (h a List.mem_cons_self)]
     rw [ih (fun s hs => h s (List.mem_cons_of_mem _ hs))]
 
 /-- the client's typed view of the served description of `vd` equals the definition -/
@@ -247,13 +250,11 @@ theorem clientVar_allowed_builds {fs : Facts} {vd : VarDef} (h : VarWF fs vd) :
       List.mem_map] at ha
     obtain ⟨s, ⟨v, hv, rfl⟩, hs⟩ := ha
     obtain ⟨a0, ha0, hav⟩ := mem_allowedVals (mem_dedupPy hv)
-    obtain ⟨v0, hv0, ⟨v', hv', _⟩, _⟩ := h.allowed_ok a0 ha0
+    obtain ⟨v0, hv0, ⟨v', hv', _⟩, hne⟩ := h.allowed_ok a0 ha0
     rw [hav] at hv0; cases hv0
     have : a = pyStr v := by
-      unfold textOf at hs
-      split at hs
-      · cases hs
-      · cases hs; rfl
+      rw [allowedText_textOf hne] at hs
+      cases hs; rfl
     rw [this, hv']; rfl
 
 /-- the client's eager schema construction succeeds on what it parsed -/
